@@ -48,15 +48,17 @@ WellShaped(inputs, hunks) ==
     /\ \A i \in 1..Len(inputs) : Len(hunks[h].r[i]) = 2
 
 (* Per input the ranges are contiguous from 0 to the input's length, so the *)
-(* concatenation of the slices reproduces the input byte for byte.          *)
-Covers(inputs, hunks) ==
-  \A i \in 1..Len(inputs) :
-    IF Len(hunks) = 0 THEN Len(inputs[i]) = 0
+(* concatenation of the slices reproduces the input byte for byte.  Stated  *)
+(* on the lengths so that it also judges compact records (large inputs).    *)
+CoversLens(lens, hunks) ==
+  \A i \in 1..Len(lens) :
+    IF Len(hunks) = 0 THEN lens[i] = 0
     ELSE /\ hunks[1].r[i][1] = 0
-         /\ hunks[Len(hunks)].r[i][2] = Len(inputs[i])
+         /\ hunks[Len(hunks)].r[i][2] = lens[i]
          /\ \A h \in 1..Len(hunks) :
               /\ hunks[h].r[i][1] <= hunks[h].r[i][2]
               /\ h < Len(hunks) => hunks[h].r[i][2] = hunks[h + 1].r[i][1]
+Covers(inputs, hunks) == CoversLens([i \in 1..Len(inputs) |-> Len(inputs[i])], hunks)
 
 MatchingEqual(inputs, cmp, hunks) ==
   \A h \in 1..Len(hunks) :
@@ -74,6 +76,27 @@ DiffOK(inputs, cmp, hunks) ==
   /\ Covers(inputs, hunks)
   /\ MatchingEqual(inputs, cmp, hunks)
   /\ NoEmptyHunk(inputs, hunks)
+  /\ Alternates(hunks)
+
+(* COMPACT form of the contract for inputs too large to ship to TLC: the    *)
+(* record carries the input lengths and, per hunk, kind, ranges and a hash  *)
+(* x[i] of every slice (taken from the texts hunks() hands out).  Exact     *)
+(* comparison only.  Matching-equality is then hash-based: equal lengths    *)
+(* and equal hashes (a hash collision could hide an unequal Matching hunk;  *)
+(* an unequal hash always reveals one).  WellShaped / NoEmptyHunk only use  *)
+(* the number of inputs, so the lengths stand in for the inputs.            *)
+MatchingHashEqual(hunks) ==
+  \A h \in 1..Len(hunks) :
+    hunks[h].k = Matching =>
+      \A i \in 2..Len(hunks[h].r) :
+        /\ hunks[h].x[i] = hunks[h].x[1]
+        /\ hunks[h].r[i][2] - hunks[h].r[i][1] = hunks[h].r[1][2] - hunks[h].r[1][1]
+CompactDiffOK(lens, hunks) ==
+  /\ WellShaped(lens, hunks)
+  /\ \A h \in 1..Len(hunks) : Len(hunks[h].x) = Len(lens)
+  /\ CoversLens(lens, hunks)
+  /\ MatchingHashEqual(hunks)
+  /\ NoEmptyHunk(lens, hunks)
   /\ Alternates(hunks)
 
 (* hunks() must hand out exactly the slices hunk_ranges() describes.        *)
